@@ -41,6 +41,12 @@ chk("C02","Bounded exhaustive exploration of the XML round trip on the real deco
 chk("C03","Bounded exhaustive exploration of the XML encoders on JSON-shaped values: every value template up to a node bound over ordinary, attribute and text keys with strings, blanks, empty strings, numbers, booleans, nulls, empty/nested/mixed lists, as multi-key root, single-key root and AnyXml argument (default/explicit tags), for Map.Xml, Map.XmlIndent, AnyXml, AnyXmlIndent, j2x.JsonToXml, plus a special-character family under XMLEscapeChars(true); oracle: well-formed single-root output whose decode equals the reference decode of the abstract document the encoding rules denote.",
     TB+"Reference: mc/harness/c03.go (jsonToItems) + ref_xml.go. Bounds: <=5/6 nodes. Attribute/text entries never stand where an element name is required.",
     "explicit small-scope enumeration of (value, encoder) on the implementation with a lock-step reference model; owned map order")
+chk("C04","Bounded exhaustive exploration of the sequence-preserving codec: every element tree up to an element bound (all sibling interleavings) with <=2 decorations (attributes in both orders incl. namespaced and xmlns, one leading text run plain/CDATA with special characters, one comment / directive / PI at every position, renamed and prefixed elements) through NewMapXmlSeq->Xml, ->XmlIndent, BeautifyXml, BeautifyXml->NewMapFormattedXmlSeq->Xml and a second encoding of the same MapSeq; oracle: the raw token stream of the output equals the stream the abstract tree denotes (exact for Xml; modulo whitespace-only character data for indented forms, text-only elements exact).",
+    TB+"Reference: treeTokens/rawTokens in mc/harness/xmlutil.go. Bounds: <=4/5 elements, <=2 decorations (on <=3/4 elements).",
+    "explicit small-scope enumeration of (document, codec path) on the implementation; token-stream reference model; owned map order with deviation-bounded DFS")
+chk("C05","Bounded exhaustive exploration of escaping: every word of <=3/4 tokens over an alphabet of the five XML special characters, blanks, already-escaped sequences, ]]> and <![CDATA[, placed as element text, attribute value, text beside an attribute and text before a child, for the four XML encoders, under encoder-side escaping, decoder-side escaping (reached by all five documented call histories of the two switches), and escaping off with the validity check on/off; oracle: well-formed output denoting exactly the original values; error-or-well-formed when unescaped.",
+    TB+"Bounds: words <=3 (quick) / 4 (thorough) tokens over 15 tokens.",
+    "explicit enumeration of (string, position, encoder, option history) on the implementation; differential decode oracle")
 ALL=["C%02d"%i for i in range(1,21)]
 na=[{"property_id":p,"reason":"check not built yet in this round (planned: see DESIGN.md section 6); will be claimed once its harness is committed"} for p in ALL if p not in C]
 m={"version":1,
